@@ -2,12 +2,17 @@
 (* C08 durability.  Validates records of REAL crash experiments on store.ChainDatabase:
 
      ref       the never-stopped reference: block hashes, the observation a node presents when block h is its
-               stable block (obs_at), the final observation of the uncrashed script
+               stable block (obs_at), the final observation of the uncrashed script; the layout of tmp.data as the
+               real code wrote it while the async writer was held back (unpadded length of every record) and the
+               records whose payloads were steered onto the length classes of spec/Durability.tla
      reset     one crash case (schedule of the async writer, armed hit, torn class)
      Workload  what the workload process had logged as completed when it died
      Crash     the crash point the verif hook reports (tag, bytes of a torn write, where the main thread was)
      Recrash   a second crash while the directory was being reopened (crash during recovery)
-     Recover   what a fresh process sees when it reopens the directory
+     Recover   what a fresh process sees when it reopens the directory; wal = the complete records the dead process
+               left in tmp.data (their unpadded lengths, read before the real code touched the file) and
+               FileQueue.Offset after the recovery scan; casks = size and current offsets of every bitcask data
+               file after the replay has drained
      Continue  the rest of the script fed to the restarted node: hashes it computes, final observation
 
    The clauses of the property are the operators Opens / StableNotOlder / StableClosed / ContinuationEqual; they
@@ -25,6 +30,34 @@ Obs(h) == ref.obs_at[h + 2]                      \* obs_at[1] is the empty datab
 NB == Len(ref.hash) - 1
 Has(e, f) == f \in DOMAIN e
 
+(* ---------------------------------------------------------------- the 256-byte record format
+   tmp.data and the bitcask files: head+body padded to the next multiple of 256.  Length classes as in Durability.tla. *)
+Slot == 256
+Align(n) == ((n + Slot - 1) \div Slot) * Slot
+Cls(n) == LET m == n % Slot IN IF m = 0 THEN "on" ELSE IF m = Slot - 1 THEN "below" ELSE IF m = 1 THEN "above" ELSE "off"
+ClsName(n) == IF n = 0 THEN "on" ELSE IF n = -1 THEN "below" ELSE IF n = 1 THEN "above" ELSE "off"
+\* the recovery scan, record by record: from the record at off to the next one (Durability.tla: Stride, ScanWalk)
+RECURSIVE ScanEnd(_, _, _)
+ScanEnd(lens, i, off) == IF i > Len(lens) THEN off ELSE ScanEnd(lens, i + 1, off + Align(lens[i]))
+\* an uncrashed file is exactly its records, each padded to the next boundary
+\* (stop = why the harness's reader stopped: "eof" = at the end of the file, after the last record)
+LayoutOK(lay) == lay.stop = "eof" /\ Len(lay.lens) = Len(lay.flgs) /\ ScanEnd(lay.lens, 1, 0) = lay.size
+\* the steered records really have the lengths k*256-1 / k*256 / k*256+1 on disk ...
+TargetsHit(ts) == \A i \in 1..Len(ts) : Cls(ts[i].len) = ClsName(ts[i].cls)
+\* ... and every record kind of the pipeline occurs in every class
+BoundaryCovered(ts) == \A k \in {"code", "trie", "acct", "blk"}, cl \in {-1, 0, 1} :
+                          \E i \in 1..Len(ts) : ts[i].kind = k /\ ts[i].cls = cl
+\* Durability.tla OffsetAtEnd on the real store: after the scan the append offset is the end of the last complete
+\* record the dead process left (no hole in front of the next write, no record overwritten by it)
+WalOK(e) == Has(e, "wal") => e.wal.offset = ScanEnd(e.wal.lens, 1, 0)
+\* the bitcask data files once the async writer has moved everything (Durability.tla: file, curDisk, curMem, Advance):
+\* the persisted CurrentPos lies at or behind the end of everything ever written to the file - the next record
+\* overwrites nothing (an offset advanced by less than the padded record, or a replay that was appended instead of
+\* written in place, leave bytes behind it) - and the in-memory CurOffset agrees with it.
+\* (cur, mem = <<offset, file index>>; n, stop = the harness's walk over the file: not judged)
+CaskOK(k) == k.cur[1] >= k.size /\ k.mem = k.cur
+CasksOK(e) == Has(e, "casks") => \A j \in 1..Len(e.casks) : CaskOK(e.casks[j])
+
 (* ---------------------------------------------------------------- the property's clauses *)
 Opens(e) == e.opened /\ ~e.died /\ ~Has(e, "obs_panic")
 
@@ -41,8 +74,9 @@ Chain(k) == SubSeq(ref.hash, 1, k + 1)
 ChainClosed(o, x) == /\ o.stable_hash = (IF o.stable_h >= 0 THEN ref.hash[o.stable_h + 1] ELSE "")
                      /\ o.by_height = Chain(o.stable_h) /\ o.by_hash = Chain(o.stable_h)
                      /\ o.stable_h = x.stable_h /\ o.vtrie = x.vtrie
+\* (heights_ahead / hashes_ahead: blocks above the stable one that the store already answers for by height / by hash)
 StateExact(o, x) == /\ o.accounts = x.accounts /\ o.code = x.code /\ o.storage = x.storage
-                    /\ o.heights_ahead = 0
+                    /\ o.heights_ahead = 0 /\ o.hashes_ahead = 0
 CandidatesExact(o, x) == o.cands = x.cands /\ o.top = x.top
 
 \* block, ancestors by hash and by height, accounts as of exactly that block, code, trie nodes, candidates
@@ -105,7 +139,10 @@ DevTornRecordAccepted(e) ==
               \/ e.obs.stable_h < NB /\ e.obs.accounts[a] = Obs(e.obs.stable_h + 1).accounts[a]
 
 \* the batch (block, height index, accounts of block k+1) is durable in tmp.data before the stable pointer moves and
-\* recovery redelivers it without moving the pointer: stable block k, account data (partly) as of k+1
+\* recovery redelivers it - or, of a torn batch, its complete records - without moving the pointer: stable block k,
+\* account data (partly) as of k+1.  When the write was torn right after the block record the only trace is the block
+\* of height k+1 answering by hash (hashes_ahead): ChainDatabase.SetBlock then refuses that block as existing - at
+\* k = -1 the genesis block: chain.SetupGenesisBlock panics on every start.
 DevBatchAhead(e) ==
   /\ BatchWindow
   /\ Opens(e) /\ StableNotOlder(e.obs) /\ StableBegun(e.obs)
@@ -115,7 +152,7 @@ DevBatchAhead(e) ==
        /\ \A a \in DOMAIN o.accounts : o.accounts[a].ok
        /\ o.code \in {Obs(k).code} \cup (IF k < NB THEN {Obs(k + 1).code} ELSE {})
        /\ o.storage \in {Obs(k).storage} \cup (IF k < NB THEN {Obs(k + 1).storage} ELSE {})
-       /\ o.heights_ahead \in {0, 1}
+       /\ o.heights_ahead \in {0, 1} /\ o.hashes_ahead \in {0, 1}
        /\ ~StateExact(o, Obs(k))
 
 \* the stable pointer moves before context.data is rewritten and nothing re-derives it on restart:
@@ -132,6 +169,7 @@ DevStaleCandidates(e) ==
 
 (* ---------------------------------------------------------------- trace actions *)
 TRef == /\ Ev("ref") /\ ph \in {"none", "done"}
+        /\ LayoutOK(E.layout) /\ TargetsHit(E.targets) /\ BoundaryCovered(E.targets)
         /\ ref' = E /\ ph' = "done" /\ UNCHANGED <<w, c, r>>
 TReset == /\ Ev("reset") /\ ph = "done" /\ ref # NoRef
           /\ ph' = "start" /\ UNCHANGED <<ref, w, c, r>>
@@ -150,6 +188,7 @@ Down(e) == ~e.opened \/ e.died \/ Has(e, "obs_panic")
 Dev(e, key, cond) == ~RecOK(e) /\ key \in AllowedDev /\ cond /\ UseDev(key) /\ Verdict(e, key)
 TRecover ==
   /\ Ev("Recover") /\ ph = "crashed"
+  /\ WalOK(E) /\ CasksOK(E)                            \* no named deviation excuses a wrong append offset
   /\ \/ RecOK(E) /\ Verdict(E, "none")
      \/ Dev(E, "Dev_TornWalTailPanics", DevTornWalPanics(E))
      \/ Dev(E, "Dev_TornContextPanics", DevTornCtxPanics(E))
@@ -167,6 +206,7 @@ FinalModuloCandidates(e) == /\ ~e.died /\ ~Has(e, "cont_panic")
                             /\ e.reopened.confirms = ref.final.confirms
 TContinue ==
   /\ Ev("Continue") /\ ph = "recovered"
+  /\ CasksOK(E)
   /\ \/ r.dev = "none" /\ ContinuationEqual(E, r.k)
      \/ r.dev = "Dev_StaleCandidatesAfterCrash" /\ FinalModuloCandidates(E)
      \/ r.dev \in {"Dev_BatchAheadOfStablePointer", "Dev_TornWalRecordAccepted"}   \* the restarted node diverges: that is the finding
